@@ -934,6 +934,13 @@ impl NodeId {
         if arena[self].is_removed() || arena[new_sibling].is_removed() {
             return Err(NodeError::Removed);
         }
+        if self
+            .ancestors(arena)
+            .skip(1)
+            .any(|ancestor| new_sibling == ancestor)
+        {
+            return Err(NodeError::InsertAfterAncestor);
+        }
         new_sibling.detach(arena);
         let (next_sibling, parent) = {
             let current = &arena[self];
@@ -1033,6 +1040,13 @@ impl NodeId {
         }
         if arena[self].is_removed() || arena[new_sibling].is_removed() {
             return Err(NodeError::Removed);
+        }
+        if self
+            .ancestors(arena)
+            .skip(1)
+            .any(|ancestor| new_sibling == ancestor)
+        {
+            return Err(NodeError::InsertBeforeAncestor);
         }
         new_sibling.detach(arena);
         let (previous_sibling, parent) = {
